@@ -27,7 +27,18 @@ for n in names:
     what = [l.strip() for l in out.splitlines() if l.strip().startswith("what:")]
     rows.append((n, "caught" if rc == 1 and vio else "MISSED (rc=%s)" % rc, (vio[0] if vio else "") + (" :: " + what[0][:160] if what else ""), int(time.time() - t)))
     print(rows[-1], flush=True)
-with open(os.path.join(S, "RESULTS.md"), "w") as f:
+# keep the rows of changes that were not re-run this time
+res = os.path.join(S, "RESULTS.md")
+if sys.argv[1:] and os.path.exists(res):
+    old = {}
+    for l in open(res).read().splitlines()[2:]:
+        c = [x.strip() for x in l.strip().strip("|").split(" | ")]
+        if len(c) >= 4:
+            old[c[0]] = (c[0], c[1], " | ".join(c[2:-1]), int(c[-1]))
+    for r in rows:
+        old[r[0]] = r
+    rows = [old[k] for k in sorted(old)]
+with open(res, "w") as f:
     f.write("| seeded change | result | first line reported | seconds |\n|---|---|---|---|\n")
     for r in rows:
         f.write("| %s | %s | %s | %d |\n" % r)
